@@ -67,7 +67,7 @@ class C02(Check):
             return self._direct_functions(tape, ctx)
         if tape.chance(1, 12, "step-sampling?"):
             return self._step_sampling(tape, ctx)
-        if tape.chance(1, 25, "stabilizer-measure?"):
+        if tape.chance(1, 12, "stabilizer-measure?"):
             return self._stabilizer_measure(tape, ctx)
         if tape.chance(1, 40, "wide-register?"):
             return self._wide_register(tape, ctx)
